@@ -185,7 +185,7 @@ class Ctx:
         names = re.findall(r"^theorem\s+([A-Za-z0-9_.']+)", text, flags=re.M)
         res = {"obligations": names, "discharged": [], "axioms": {}}
         # forbidden tokens in every hand-written Lean file (comments stripped)
-        for f in sorted((LEAN / "EzdxfVerif").rglob("*.lean")):
+        for f in import_closure(LEAN / rel):
             body = strip_lean_comments(f.read_text())
             for ln in body.splitlines():
                 if FORBIDDEN.search(ln):
@@ -268,6 +268,19 @@ class lean_lock:
     def __exit__(self, *a):
         fcntl.flock(self.fh, fcntl.LOCK_UN)
         self.fh.close()
+
+
+def import_closure(root: Path) -> list[Path]:
+    """the Props file and every EzdxfVerif/Drivers module it imports, transitively"""
+    seen, todo = {}, [root]
+    while todo:
+        f = todo.pop()
+        if f in seen or not f.exists():
+            continue
+        seen[f] = True
+        for m in re.findall(r"^import\s+((?:EzdxfVerif|Drivers)[A-Za-z0-9_.]*)", f.read_text(), flags=re.M):
+            todo.append(LEAN / (m.replace(".", "/") + ".lean"))
+    return sorted(seen)
 
 
 def strip_lean_comments(s: str) -> str:
